@@ -65,9 +65,12 @@ def run(ctx):
     binary = vlib.go_build(ctx, "drv_pool")
     rrecs, rrej = pl.run_scripts(ctx, "reuse", rscripts, binary)
     precs, prej = pl.run_scripts(ctx, "pipeline", pscripts, binary)
+    p1scripts = pl.expand_repeat(pl.pipeline_cap1_scenarios(T))
+    p1recs, _ = pl.run_scripts(ctx, "pipeline", p1scripts, binary, label="pipeline (capacity 1 < dial queue 2)",
+                               trace_cfg="LazyPipeline_Trace_cap1.cfg")
 
-    recs = rrecs + precs
-    scripts = rscripts + pscripts
+    recs = rrecs + precs + p1recs
+    scripts = rscripts + pscripts + p1scripts
     ran = [r for r in recs if not r.get("skipped")]
     steered = [(r, s) for r, s in zip(recs, scripts) if not r.get("skipped") and r["steered"]]
     ctx.cov["evaluations"] = len(ran)
